@@ -190,6 +190,59 @@ def run(tier):
         if sh != ref_shape[desc]:
             rep.violation("derive_list_changes_more_than_the_derives", {"operation": desc, "options": {key: lst}, "query": gql.render_doc(doc)},
                           "items differ beyond #[derive(..)] from the ones generated without extra derives")
+    # ---- token level, the other wire-neutral options: each may change exactly one thing - visibility the `pub` of the
+    # struct and its module, the serde path the path, the custom-scalars module the targets of the scalar aliases, extern
+    # enums the presence of the enum's definition - and nothing else (field types, serde attributes, struct shapes)
+    ALLOWED = [
+        ("visibility", {"visibility": "pub(crate)"}),
+        ("serde_path", {"serde_path": "graphql_client::_private::serde"}),
+        ("custom_scalars_module", {"custom_scalars_module": "crate::scalars"}),
+        ("extern_enums", {"extern_enums": ["Role"]}),
+    ]
+
+    def neutral(items, what):
+        items = [dict(it) for it in items]
+        if what == "visibility":
+            for it in items:
+                it["vis"] = ""
+        if what == "extern_enums":
+            def drop(its):
+                out = []
+                for it in its:
+                    if it.get("kind") == "mod":
+                        it = dict(it, items=drop(it["items"]))
+                    elif (it.get("name") == "Role" and it.get("kind") == "enum") or (it.get("kind") == "impl" and it.get("self_ty") == "Role"):
+                        continue
+                    out.append(it)
+                return out
+            items = drop(items)
+        text = json.dumps(items, sort_keys=True)
+        text = text.replace("graphql_client :: _private :: serde", "serde").replace("graphql_client::_private::serde", "serde")
+        text = text.replace(":: serde", "serde").replace("::serde", "serde")
+        return text.replace("crate::scalars::", "super::").replace("crate :: scalars ::", "super ::")
+
+    nreqs, nmeta = [], []
+    for desc, doc in ops:
+        q = gql.render_doc(doc)
+        nreqs.append(gen_request(sdl, q, {"mode": "cli"}, inspect=True))
+        nmeta.append((desc, None, q))
+        for what, o in ALLOWED:
+            nreqs.append(gen_request(sdl, q, dict({"mode": "cli"}, **o), inspect=True))
+            nmeta.append((desc, what, q))
+    nres = generate(nreqs)
+    base_items = {}
+    for (desc, what, q), r in zip(nmeta, nres):
+        if r["status"] != "ok" or "items" not in r:
+            continue   # (generation failures are reported by the compiled part below)
+        if what is None:
+            base_items[desc] = r["items"]
+            continue
+        if desc not in base_items:
+            continue
+        shape_cmp += 1
+        if neutral(r["items"], what) != neutral(base_items[desc], what):
+            rep.violation("option_changes_more_than_it_should", {"operation": desc, "option": what, "query": q},
+                          "the generated items differ from the default ones in more than the %s" % what)
     farm = Farm("c09")
     for m, r in zip(mods, resps):
         m["label"] = {"operation": m["desc"], "options": {k: v for k, v in m["opts"].items() if k != "mode"}, "query": gql.render_doc(m["doc"])}
